@@ -435,13 +435,17 @@ def _aiger_t3(kind, make_parser, harnesses):
         "overlay_extra": _QUEUE["overlay_extra"],
         "inject": g["inject"] + _QUEUE["inject"] + [("flussab-aiger/src/lib.rs", r"\A", "#![cfg_attr(kani, feature(allocator_api))]\n"),
                                                    ("flussab-aiger/src/%s.rs" % kind, r"\n\s*let justice_property_count = self\.header\.justice_property_count;\n",
-                                                    "        #[cfg(kani)]\n        if crate::token::verif_stub::cut_after_prealloc() {\n            return Err(crate::token::verif_stub::any_err());\n        }\n")],
+                                                    "        #[cfg(kani)]\n        if crate::token::verif_stub::cut_after_prealloc() {\n            return Err(crate::token::verif_stub::any_err());\n        }\n"),
+                                                   ("flussab-aiger/src/%s.rs" % kind, r"\n\s*let mut justice_property = 0;\n",
+                                                    "        #[cfg(kani)]\n        if crate::token::verif_stub::cut_after_justice_sizes() {\n            return Err(crate::token::verif_stub::any_err());\n        }\n")],
         "append_text": g["append_text"] + [_SMALL_WRITER],
         "params": {"quick": {"N": 2, "QCAP": 28}, "thorough": {"N": 2, "QCAP": 28}},
         "flags": ["-Z", "stubbing", "--default-unwind", "12"],
         "harnesses": harnesses + [
             ("parse_prealloc_bound", {"props": ["C05"], "cost": 4, "solver_only": ["allocation bound"], "flags": ["--default-unwind", "2"],
                                       "what": "%s Parser::parse: every reserve/with_capacity is <= 2^16 elements for EVERY header (counts up to usize::MAX): declared counts cannot drive allocation" % kind}),
+            ("parse_prealloc_bound_justice", {"props": ["C05"], "cost": 6, "solver_only": ["allocation bound"], "flags": ["--default-unwind", "4"],
+                                              "what": "%s Parser::parse: neither the declared number of justice properties nor the justice sizes read from the body drive an allocation" % kind}),
         ],
     })
     return g
@@ -807,6 +811,9 @@ _COMPOSED_NOTE = "Decided compositionally: every link is a SAT-based bounded mod
 
 PROPERTIES["C01"] = {
     "level": "other",
+    # every tokenizer harness runs with nondeterministic refills against a reference on the whole
+    # window, so each of them is a schedule-independence check of its token function
+    "all_harnesses": ["cnf_token_t0", "aiger_token_t0", "btor2_token_t0"],
     "groups": ["reader_step", "text_t0", "btor2_token_t0", "btor2_token_wide", "aiger_token_t0", "cnf_token_t0"],
     "audits": ["observation_sites"],
     "claim": "Schedule independence by composition: (1) the real reader exposes exactly the stream for every read schedule, chunk size and Interrupted pattern (C02 step harnesses incl. mark rebase); (2) a syntactic audit regenerated on every run lists every place where parser-side code observes the AMOUNT of buffered data; (3) for each such place a SAT-based harness proves the result is the same for every buffered amount and refill schedule (optimised == simple digit scanners, BTOR2 keyword scanner fast == cold == reference, AIGER comment section); every other tokenizer harness also runs with nondeterministic refills.",
